@@ -157,7 +157,7 @@ func RunCase(seed uint64, idx int, p *Profile, o *Opts, st *Stats) (cr *CaseResu
 	r := NewRng(mix(seed, idx))
 	cfg := DrawConfig(r, o)
 	m := NewModel()
-	if !o.RelCacheProcess || RelCache == nil {
+	if !o.RelCacheProcess || RelCache == nil || len(RelCache) > 50000 { // (bounded: a process may run thousands of cases)
 		// (with RelCacheProcess the world-independent relation lists live as long as the process: a list used with one
 		// world is handed to the worlds of later cases, whose component IDs differ)
 		RelCache = map[string][]ecs.Relation{}
